@@ -166,6 +166,8 @@ type Loaded struct {
 	ByID     map[string]*packages.Package // by ID
 	Plain    map[string]*packages.Package // import path -> non-test variant
 	TypeErrs []string
+
+	unsafePkg *packages.Package
 }
 
 type progImporter struct {
@@ -175,6 +177,9 @@ type progImporter struct {
 func (pi *progImporter) Import(path string) (*types.Package, error) {
 	if p, ok := pi.m[path]; ok {
 		return p, nil
+	}
+	if path == "unsafe" {
+		return types.Unsafe, nil
 	}
 	return nil, fmt.Errorf("package %q not in program", path)
 }
@@ -229,6 +234,13 @@ func Load(prog *Program, root string, goVersion string) (*Loaded, error) {
 		for _, ip := range tp.Imports() {
 			if dep := impPkgs(ip.Path()); dep != nil {
 				pp.Imports[ip.Path()] = dep
+			} else if ip.Path() == "unsafe" {
+				// go/packages lists the pseudo package like any dependency (it gets an action and an empty fact)
+				if ld.unsafePkg == nil {
+					ld.unsafePkg = &packages.Package{ID: "unsafe", Name: "unsafe", PkgPath: "unsafe", Fset: fset, Types: types.Unsafe,
+						TypesInfo: &types.Info{}, TypesSizes: sizes, Imports: map[string]*packages.Package{}}
+				}
+				pp.Imports["unsafe"] = ld.unsafePkg
 			}
 		}
 		ld.All = append(ld.All, pp)
